@@ -368,14 +368,14 @@ def check_initialize(rep, f, F):
         rep.broken("R1.3", "Map_Sphere::Initialize: AddElem arguments do not fold to scalars")
     hv = havoc_atoms(w_arg) + havoc_atoms(f_arg)
     if hv:
-        rep.broken("R1.3", "Map_Sphere::Initialize: a weight vector is modified in a way the element-wise fold does not model: %s" % hv)
+        raise AnalysisBroken("Map_Sphere::Initialize: a weight vector is modified in a way the element-wise fold does not model: %s" % hv)
     # base atoms: the tokenised <weights> and <d> strings
     from sympy.core.function import AppliedUndef
     ats = {a for e in (w_arg, f_arg) for a in e.atoms(AppliedUndef) if str(a.func) == "at" and len(a.args) == 2 and a.args[1] == K}
     w0 = [a for a in ats if '"weights"' in str(a.args[0])]
     d0 = [a for a in ats if '"d"' in str(a.args[0])]
     if len(w0) != 1 or len(d0) != 1:
-        rep.broken("R1.3", "Map_Sphere::Initialize: cannot identify the <weights>/<d> sources in the AddElem arguments (%s)" % sorted(map(str, ats)))
+        raise AnalysisBroken("Map_Sphere::Initialize: cannot identify the <weights>/<d> sources in the AddElem arguments (%s)" % sorted(map(str, ats)))
     w0, d0 = w0[0], d0[0]
     W = w0 / SUMK(w0.xreplace({K: KB}))
     D = d0 / SUMK(d0.xreplace({K: KB}))
@@ -406,26 +406,34 @@ def check_initialize(rep, f, F):
     need = {"beads/weights size": lambda s: "size(beads)" in s and "size(weights)" in s and "!=" in s,
             "beads/d size": lambda s: "size(beads)" in s and "size(d)" in s and "!=" in s,
             }
-    def wd_throw(g):
-        if not g:
-            return False
-        c, pol = g[-1][0], g[-1][1]
-        if not (pol and isinstance(c, tuple) and c[0] == "&&" and len(c) == 3):
-            return False
-        l, r = c[1], c[2]
-        if not (isinstance(l, tuple) and isinstance(r, tuple) and l[0] == "==" and r[0] == "!=" and l[2] == 0 and r[2] == 0):
-            l, r = r, l
-        if not (isinstance(l, tuple) and isinstance(r, tuple) and l[0] == "==" and r[0] == "!=" and l[2] == 0 and r[2] == 0):
-            return False
-        # (a positive factor 1/SUM does not change the zero test)
-        def scaled(e, base):
-            if isinstance(e, (Matrix, tuple)):
-                return False
-            q = sp.cancel(e / base)
-            return q != 0 and not q.has(K)
-        return scaled(l[1], w0) and scaled(resolve_ite(r[1], hasd), d0)
-    rep.check(any(wd_throw(g) for g in fo.throws), "R1.3", "throw|w=0 with d!=0", "throw when a weight is 0 and its d coefficient is not",
-              "Map_Sphere::Initialize does not reject a non-zero d coefficient on a zero weight (throw guards: %s)" % [t[-160:] for t in tg], f.loc())
+    from vsa.cases import executes
+    from sympy.core.function import AppliedUndef
+    thr_ev = [e for e in fo.events if e["kind"] == "throw" and any(isinstance(g_[0], tuple) and g_[0] and g_[0][0] == "each" for g_ in e["guards"])]
+    pos_ = {a_: sp.Symbol("_sum%d" % i_, positive=True) for i_, a_ in enumerate(sorted({x for e in thr_ev for x in ev_atoms(e) if str(x.func) == "SUMK"}, key=str))}
+
+    def wd_table():
+        """some throw inside the element loop runs iff the weight is zero and the d coefficient is not"""
+        for wv, dv, want in ((0, 0, False), (0, 1, True), (1, 0, False), (1, 1, False), (0, -2, True)):
+            sub = dict(pos_)
+            sub.update({w0: sp.Integer(wv), d0: sp.Integer(dv)})
+            # the missing-sub-bead throw of the AddElem loop is a different loop: only throws whose guards mention a weight count
+            def orc(leaf):
+                s_ = str(leaf)
+                if s_.startswith("exists(") and '"d"' in s_:
+                    return ("hasd", True)
+                if isinstance(leaf, tuple) and len(leaf) == 3 and leaf[0] in ("!=", "==") and str(leaf[1]).startswith("size(") and str(leaf[2]).startswith("size("):
+                    return ("sizes_differ", leaf[0] == "!=")
+                return None
+            res = [executes(e, sub, {"hasd": True, "sizes_differ": False}, orc, getattr(fo, "conds", {})) for e in thr_ev
+                   if any(x in (w0, d0) for x in ev_atoms({"guards": e["guards"]}))]
+            if any(r_ is None for r_ in res):
+                return "undecidable for w=%s, d=%s" % (wv, dv)
+            if any(res) != want:
+                return "for weight %s and d %s the mapping is %s" % (wv, dv, "accepted" if want else "rejected")
+        return None
+    wdm = wd_table() if thr_ev else "no throw inside the weight loop"
+    rep.check(wdm is None, "R1.3", "throw|w=0 with d!=0", "throw exactly when a weight is 0 and its d coefficient is not",
+              "Map_Sphere::Initialize: %s (throw guards: %s)" % (wdm, [t[-160:] for t in tg]), f.loc())
     for name, pred in need.items():
         rep.check(any(pred(s) for s in tg), "R1.3", "throw|" + name, "throw on " + name,
                   "Map_Sphere::Initialize does not reject %s (throw guards: %s)" % (name, [t[-160:] for t in tg]), f.loc())
@@ -441,6 +449,25 @@ def check_initialize(rep, f, F):
     want = {"in_": ps[0]["name"], "weight_": ps[1]["name"], "force_weight_": ps[2]["name"]}
     rep.check(got == want, "R1.3", "addelem-body", "element = (in, weight, force_weight)",
               "Map_Sphere::AddElem stores %s, required %s" % (got, want), fa.loc(), sample=True)
+
+
+def ev_atoms(e):
+    """applied functions in the guards (and exits before) of an event"""
+    from sympy.core.function import AppliedUndef
+    out = set()
+
+    def rec(c):
+        if isinstance(c, tuple):
+            for x in c:
+                rec(x)
+        elif hasattr(c, "atoms"):
+            out.update(c.atoms(AppliedUndef))
+    for g_ in e["guards"]:
+        rec(g_[0])
+    for gl in e.get("not", []):
+        for g_ in gl:
+            rec(g_[0])
+    return out
 
 
 def check_topologymap(rep, f):
